@@ -206,6 +206,20 @@ def lint_consts(repo):
     d("sevDup", "String", lean_str(_sev(nl, "duplicate severity")))
     d("tagsDup", "Nat", str(len(re.findall(r"DiagnosticTag::\w+", nl))))
     forc = "AstForBlock" in unu and "counter_token" in unu
+    if forc:
+        fa = _arm_body(unu, "visit", "AstForBlock")
+        fn_ = re.search(r"self\.(\w+)\(", fa)
+        fb = extract.fn_body(unu, fn_.group(1)) if fn_ else fa
+        if not re.search(r"cur_local_vars\s*\.\s*get_mut\(\s*&?node\.counter_token", fb) or "use_count + 1" not in fb:
+            raise ValueError("unused: handling of AstForBlock not recognised")
+    ta = _arm_body(unu, "visit", "AstTerminal")
+    if "self.notify_terminal_node(node)" not in ta:
+        raise ValueError("unused: terminal arm not recognised")
+    guards = re.findall(r"token\.token_type\s*(!=|==)\s*TokenType::(\w+)", ta)
+    if guards not in ([], [("!=", "StringLiteral")]):
+        raise ValueError("unused: unknown guard on terminals %s" % guards)
+    d("unusedSkipsStringLiterals", "Bool", "true" if guards else "false",
+      "string-literal terminals are not looked up in the unused-var map")
     d("unusedCountsForCounter", "Bool", "true" if forc else "false",
       "does the unused-var analyzer treat the counter of a `for` block as a mention")
     detail.append("forCounter=%s" % forc)
